@@ -201,6 +201,8 @@ def mismatch_diffs(m):
             if not e.get('sequential'):
                 got = [t['forms'] for t in (e.get('threads') or (g or {}).get('threads', []))]
                 for i, (al, gt) in enumerate(zip(e.get('alone', []), got)):
+                    if rec['a']['ops'][i]['op'] == 'par':
+                        continue      # (compared with its own digest taken alone: part of conformance)
                     if al != gt:
                         d.append((f'conc.sequential[{rec["a"]["ops"][i]["op"]}]', al, gt))
                 gf = (g or {}).get('files', [])
